@@ -166,6 +166,24 @@ CLAIMS['C17'] = dict(
           "threshold and unknown-exon skipping, intron start tolerance, and the tally."),
     note="The end tolerance of ciRNA introns is only checked for exact matches (the tool also accepts any block ending before the next exon).",
     technique="TLA+ definitional spec; TLC validation of CLI outputs", ref='6 C17')
+CLAIMS['C03'] = dict(
+    text=("HeaderOracle.tla: for every (peptide, header entry) pair of every FASTA of the C01 campaign (plus indel-rich extra cases) "
+          "TLC checks that the named backbone is a transcript of the input, every named variant id is a record of that transcript, "
+          "and that applying exactly the named variants - no others - gives a translation in which the peptide is a digestion "
+          "product (HapPeptides of Peptides.tla); entry strings must be unique per FASTA. A failing witness that becomes valid by "
+          "adding exactly one unnamed frameshifting variant is reported under the recorded finding."),
+    note=("Linear transcripts with small variants only; fusion / circRNA / SECT / W2F entries are checked for well-formedness by "
+          "C09/C15/C18 but not for the witness property."),
+    technique="TLA+ definitional witness evaluated by TLC per recorded header entry", ref='6 C03')
+CLAIMS['C05'] = dict(
+    text=("MonotoneTrace.tla: paired runs of one input under a stricter and a relaxed setting (miscleavage+1, min-length-1, "
+          "max-length+3, lower min-mw, SECT, W2F, coding-novel-orf, one more variant record, one more GVF file); TLC requires the "
+          "stricter output to be a subset and every added peptide to be attributable (site count above the old limit, length/mass "
+          "outside the old limit, SECT/W2F/ORF label, label naming the added variant); noncanonical-transcripts and "
+          "backsplicing-only runs must be subsets of the unrestricted run. Inputs: the synthetic campaign and the repository's demo "
+          "data with fusion, circRNA and alternative-splicing records."),
+    note="Complexity limits off; spec-level monotonicity of Complete/Sound follows from their definitions (subset of haplotypes / fragments).",
+    technique="TLC validation of paired real runs against a TLA+ attribution rule", ref='6 C05')
 PENDING = "not claimed in this revision: check not built yet (work in progress, see DESIGN.md section 12)"
 NA = {}
 
